@@ -114,6 +114,21 @@ claim('C01',
       'dask-site resolution + symbolic footprint-vs-halo comparison + lazy-value taint to eager sinks',
       'DESIGN.md §4 C01')
 
+claim('C07',
+      'Static analysis of the dask path shared by proximity/allocation/direction: the single map_overlap site runs '
+      'the numpy branch\'s own closure kernel over (data, x grid, y grid) in the kernel\'s parameter order with NaN '
+      'boundary; each halo pad is int(max_distance / cellsize + c), c >= 0 (or a ceil), built from the cell size of '
+      'its OWN axis (units-of-measure check through the (x, y) unpacking of the resolution helper) and placed in '
+      'that axis\' slot of depth; the documented single-block fallback exists, compares max_distance with the '
+      'corner-to-corner distance under the chosen metric, rechunks the data and both coordinate grids to the full '
+      'shape; the grids are the raster\'s own coordinates tiled/repeated in row-major layout. Decided for every '
+      'chunking, max_distance and cell size at once. Not decided: the dask limit when the halo exceeds the raster '
+      '(outside the property\'s domain), and the exactness of the sweep itself (C06).',
+      'Trusted: da.map_overlap semantics (halo, NaN boundary, chunk unification of multiple arrays); integer cell '
+      'offsets need floor(max_distance/cellsize) halo cells.',
+      'site resolution + symbolic pad-form check (exact rational arithmetic) + structural fallback rule',
+      'DESIGN.md §4 C07')
+
 ALL = ['C%02d' % i for i in range(1, 20)]
 
 
